@@ -1053,6 +1053,11 @@ fn check_are_endpoints_securities_compatible(
 // -----------------------------------------------------------
 // -----------------------------------------------------------
 
+// Verification accessors (read-only views of private state); only with `--cfg rustdds_verif`.
+#[cfg(rustdds_verif)]
+#[path = "/verif/facade/dp_hooks.rs"]
+pub(crate) mod verif_hooks;
+
 #[cfg(test)]
 mod tests {
   use std::{sync::Mutex, thread};
